@@ -16,7 +16,7 @@ use std::collections::BTreeSet;
 pub struct Opts {
     /// `repeat … continue … until <reads a body local>` (finding F9)
     pub f9: bool,
-    /// if-expressions with two or more `elseif` branches (finding F25)
+    /// (finding F25 is fixed: if-expressions with several `elseif` branches are always generated)
     pub many_elifs: bool,
     /// `//` on an object with `__idiv` (finding F26)
     pub idiv_meta: bool,
@@ -99,8 +99,8 @@ impl<'a> G<'a> {
                 if self.rng.chance(1, 3) {
                     let c2 = self.boolean(d - 1);
                     let m = self.num(d - 1);
-                    if self.opts.many_elifs && self.rng.chance(1, 2) {
-                        self.tag("f25-shape");
+                    if self.rng.chance(1, 2) {
+                        self.tag("if-expression-many-elseif");
                         let c3 = self.boolean(d - 1);
                         let m2 = self.num(d - 1);
                         format!("(if {} then {} elseif {} then {} elseif {} then {} else {})", c, a, c2, m, c3, m2, b)
